@@ -33,6 +33,7 @@ type avoid struct {
 	failInCommit        bool // failing insert inside a transaction that commits
 	mergeAfterReuse     bool // merge into a column the (reused) row holds nothing in
 	lenMergeThenPut     bool // length-changing merge followed by a put on the same row+column in one transaction
+	lenMergeSplit       bool // ... and the column's buffer ends in a later run of the same block (the stored value is wrong too)
 	dupKeyInTxn         bool // two inserts of one key in one transaction
 	enumBeyond0         bool
 	lateColSparse       bool
@@ -46,7 +47,6 @@ type avoid struct {
 	schemaChange        bool
 	blockGrowth         bool
 	enumBesideReaders   bool
-	indexDuringApply    bool
 	enumCollision       bool
 	rollbackInsert      bool
 	sortDupKeys         bool
@@ -63,6 +63,7 @@ func (a avoid) list() (out []string) {
 	add(a.failInCommit, "fail-in-commit")
 	add(a.mergeAfterReuse, "merge-absent")
 	add(a.lenMergeThenPut, "len-merge-put")
+	add(a.lenMergeSplit, "len-merge-split")
 	add(a.dupKeyInTxn, "dup-key-in-txn")
 	add(a.aggStale, "agg-missing-value")
 	add(a.unionAfterClear, "union-after-clear")
@@ -74,7 +75,6 @@ func (a avoid) list() (out []string) {
 	add(a.schemaChange, "schema-change-beside-activity")
 	add(a.blockGrowth, "growth-beside-readers")
 	add(a.enumBesideReaders, "enum-write-beside-readers")
-	add(a.indexDuringApply, "index-build-during-apply")
 	add(a.enumCollision, "enum-hash-collision")
 	add(a.rollbackInsert, "rollback-insert")
 	return
